@@ -205,7 +205,7 @@ def runnable_model(rng, dtype=torch.float64, allow_conv=True, unsupported=True, 
             H = (H + 2 * ph - kh) // sh + 1
             W = (W + 2 * pw - kw) // sw + 1
             c = co
-            if unsupported and rng.random() < 0.3:
+            if unsupported and rng.random() < 0.3 and H * W > 1:
                 layers.append(nn.BatchNorm2d(c))
                 info['desc'].append('bn')
             layers.append(nn.Tanh())
